@@ -33,21 +33,22 @@ func main() {
 	stats := map[string]int{}
 	directed = *dir
 	switch suite {
-	case "hub":
+	case "hub", "genesis":
+		genesisMode = suite == "genesis"
 		for i := 0; i < *n; i++ {
 			if *only >= 0 && i != *only {
 				continue
 			}
-			c, out := runHubCase(*seed*1000003+uint64(i), *nops, *hostile, *gov, stats)
-			fmt.Fprintf(w, "hub\t%s\t%s\n", Str(c), Str(out))
+			c, out := runHubCase(*seed*1000003+uint64(i), *nops, *hostile, *gov, suite == "genesis", stats)
+			fmt.Fprintf(w, "%s\t%s\t%s\n", suite, Str(c), Str(out))
 		}
-	case "oracle":
+	case "oracle", "oraclegen":
 		for i := 0; i < *n; i++ {
 			if *only >= 0 && i != *only {
 				continue
 			}
-			c, out := runOracleCase(*seed*1000003+uint64(i), *nops, stats)
-			fmt.Fprintf(w, "oracle\t%s\t%s\n", Str(c), Str(out))
+			c, out := runOracleCase(*seed*1000003+uint64(i), *nops, suite == "oraclegen", stats)
+			fmt.Fprintf(w, "%s\t%s\t%s\n", suite, Str(c), Str(out))
 		}
 	case "evm":
 		for i := 0; i < *n; i++ {
@@ -57,13 +58,13 @@ func main() {
 			c, out := runEvmCase(*seed*1000003+uint64(i), *nops, stats)
 			fmt.Fprintf(w, "evm\t%s\t%s\n", Str(c), Str(out))
 		}
-	case "reg":
+	case "reg", "reggen":
 		for i := 0; i < *n; i++ {
 			if *only >= 0 && i != *only {
 				continue
 			}
-			c, out := runRegCase(*seed*1000003+uint64(i), *nops, stats)
-			fmt.Fprintf(w, "reg\t%s\t%s\n", Str(c), Str(out))
+			c, out := runRegCase(*seed*1000003+uint64(i), *nops, suite == "reggen", stats)
+			fmt.Fprintf(w, "%s\t%s\t%s\n", suite, Str(c), Str(out))
 		}
 	case "claim":
 		for i := 0; i < *n; i++ {
@@ -97,13 +98,13 @@ func main() {
 			c, out := runSigsetCase(*seed*1000003+uint64(i), *nops, stats)
 			fmt.Fprintf(w, "sigset\t%s\t%s\n", Str(c), Str(out))
 		}
-	case "votes":
+	case "votes", "votesgen":
 		for i := 0; i < *n; i++ {
 			if *only >= 0 && i != *only {
 				continue
 			}
-			c, out := runVotesCase(*seed*1000003+uint64(i), *nops, stats)
-			fmt.Fprintf(w, "votes\t%s\t%s\n", Str(c), Str(out))
+			c, out := runVotesCase(*seed*1000003+uint64(i), *nops, suite == "votesgen", stats)
+			fmt.Fprintf(w, "%s\t%s\t%s\n", suite, Str(c), Str(out))
 		}
 	default:
 		fmt.Fprintln(os.Stderr, "unknown suite", suite)
